@@ -1536,7 +1536,8 @@ class Engine:
         s.env = {}
         params = [a.arg for a in fn.args.args]
         vals = list(args)
-        if recv is not None and '.' in qual:
+        is_static = any(isinstance(d, ast.Name) and d.id == 'staticmethod' for d in fn.decorator_list)
+        if recv is not None and '.' in qual and not is_static:      # a @staticmethod gets no receiver
             vals = [recv] + vals
         defaults = fn.args.defaults
         for i, p in enumerate(params):
@@ -1920,6 +1921,19 @@ class Engine:
                         k = concrete_bytes(idx)
                     if k is None:
                         k = concrete_str(idx)
+                    if k is None and idx is not VNone and not cont.items and hasattr(idx, 'z') \
+                            and hasattr(val, 'z') and idx.typ.kind in ('int', 'bytes', 'str'):
+                        # `d = {}` followed by d[symbolic key] = value: the empty literal becomes a symbolic map
+                        # with an empty domain (K(False)) and is then updated like any other VMap
+                        kt, vt = idx.typ, val.typ
+                        dom = z3.K(sort_of(kt), z3.BoolVal(False))
+                        valarr = z3.Const(fresh_name('dictlit$val'), z3.ArraySort(sort_of(kt), sort_of(vt)))
+                        kz = to_z3(idx, kt)
+                        self.store_container(s3, target.value,
+                                             VMap(z3.Store(dom, kz, True), z3.Store(valarr, kz, to_z3(val, vt)),
+                                                  kt, vt))
+                        res.append((s3, None))
+                        continue
                     if k is None and idx is not VNone:      # the constant None is a concrete key too
                         raise Unsupported('symbolic key store into concrete dict')
                     d = dict(cont.items)
@@ -2836,10 +2850,10 @@ class Engine:
         for s2, more in self.branch(h, i < n, stmt):
             if not more:
                 for_lemmas(s2, i)
+                s2.env['__loop_i__'] = VInt(i)
                 if stmt.orelse:
                     out.extend(self.ex_block(stmt.orelse, s2))
                 else:
-                    s2.env['__loop_i__'] = VInt(i)
                     out.append((s2, None))
                 continue
             if isinstance(itd, VSeq) and itd.elem.kind == 'obj':
